@@ -41,4 +41,15 @@ theorem c20_go_ssh_published (ext : SshIssueExt) (method user : List Char) (dura
       · rw [hv] at h; simp at h
     · rw [hf] at h; simp at h
 
+/-- **the same for X.509 certificates**: if `postAuthX509CertHandler` starts its 200 response (or publishes anything),
+then what it did is exactly — one call of `certgen.GenUserX509Cert`, `eventNotifier.PublishX509` of THAT call's
+certificate, respond. -/
+theorem c20_go_x509_published (ext : X509IssueExt) (method user addGroups : List Char) (duration : Int) (kube : Bool) :
+    (X509Effect.respond ∈ (KM.Gen.GoIssue.x509Issue ext method user addGroups duration kube).2 ∨
+     (∃ c, X509Effect.publish c ∈ (KM.Gen.GoIssue.x509Issue ext method user addGroups duration kube).2)) →
+    ∃ pub sg g o m der, ext.sign user pub sg duration g o m = (der, none) ∧
+      (KM.Gen.GoIssue.x509Issue ext method user addGroups duration kube).2 =
+        [.sign user pub sg duration g o m, .publish der, .respond] :=
+  x509_published ext method user addGroups duration kube
+
 end KM.IssueGo
